@@ -16,7 +16,7 @@ claim("C01", "N", N("operators are wired as regular-expression operators (shortc
 claim("C02", "N", N("fresh context per transition, handed to the recursive call, merged only on its success and appended in order; values reach user variables only through one filler that runs after the whole match (Clear once, Set each in order, error returned at once); "
       "every recorded string is a sub-slice of a command-line token or the literal \"true\"; a positional binds args[0] and returns args[1:]; only the first `--` is dropped; the vector is immutable; the in-token scan continues only past foreign flags."),
       TRUST + "offsets inside folded tokens and the choice among several derivations are not decided.",
-      TECH + "context-isolation, provenance and who-may-call rules (FSM-4/5/6/7, MAT-1/2/7, VAL-1/7)")
+      TECH + "context-isolation, provenance and who-may-call rules (FSM-4/5/6/7, MAT-1/2/7, VAL-1/5/7)")
 claim("C03", "N", N("scanner: position grows only by +1 from a value known < len, every byte read is behind such a guard on every path (with jump-threading of the closed-flag), every cycle advances; "
       "error positions come from the scanner position, a token or len(spec); parser: atom consumes on every normal return, back() only before a panic, all panics are strings converted by the recover wrapper, recursion only after a consumed opener; "
       "graph walks check-then-mark; the simplify fixpoint loop has a measure; matcher loops add a positive step; no panicking type assertion; every Cmd literal creates its maps; recursion progress per matcher (FSM-8)."),
@@ -60,7 +60,7 @@ claim("C12", "N", N("every non-matching exit of the option matcher yields the en
 claim("C13", "P", P("each built-in Set calls the right strconv function on the parameter itself with the right constants, stores a conversion of result 0 only on the err==nil edge and returns the error as is; string types store the parameter unchanged; "
       "every route to a typed variable is Set (filler, env application); a Set error aborts the fill and goes through the rejection funnel; recorded strings are verbatim token slices; single-valued env values are passed to Set untrimmed."),
       TRUST + "strconv itself; 64-bit target for int(i).",
-      TECH + "per-type strconv table check with value provenance (VAL-1/2/3, FSM-5/6, MAT-2, CMD-1)")
+      TECH + "per-type strconv table check with value provenance (VAL-1/2/3/7, FSM-5/6, MAT-2, CMD-1)")
 claim("C14", "P", P("the help scan runs first on the level's remaining arguments; State.Parse and Step.Run are reachable only when it found nothing; the help branch prints the long help, signals the sentinel, returns nil; the scan returns the index of -h/--help and -1 at the first `--` unconditionally; "
       "the version test comes first, reads only args[0] under a length guard against the declared option's names, presence is a nil test of the record Version() creates; sentinels: exit 0 or return, never 2, never panic; usage line = full path."),
       TRUST + "the interaction with an ancestor's own `--` is excluded by the property.",
@@ -80,11 +80,11 @@ claim("C17", "N", N("every declared argument, option and non-hidden command is v
 claim("C18", "P", P("one function writes each index; the option insert is inside a loop over all names, each dominated by the not-found edge of a lookup of the same key whose found edge panics; the same pointer is listed and indexed; '-' iff length 1 (evaluated for lengths 1,2,3,7); "
       "the argument insert is dominated by not-found and by a true validator (no lexer error, exactly one token, kind Arg), failing edges panic; all 46 public entry points reach one of the two registration functions."),
       TRUST + "map semantics.",
-      TECH + "who-may-write, duplicate-check-before-insert dominance and sibling agreement (DECL-1/2/4/5)")
+      TECH + "who-may-write, duplicate-check-before-insert dominance and sibling agreement (DECL-1/2/4/5, LEX-6)")
 claim("C19", "N", N("Set/Clear are invoked only by the filler and the env application; Clear exactly once before the values with no guard but the MultiValued assertion; Set for every value in order; a Set error is returned at once and goes through the funnel; "
       "IsBool is the result of IsBoolFlag(); DefaultValue uses IsDefault()'s result; a flag-like value records \"true\"; Var hands the user's value through unchanged."),
       TRUST + "VAL-4 applies to custom multi-valued types too (recorded finding D4); the call log on concrete inputs is not decided.",
-      TECH + "who-may-call and protocol-order rules (FSM-5/6, VAL-3/4/5, MAT-8, DECL-1, CMD-1)")
+      TECH + "who-may-call and protocol-order rules (FSM-5/6, VAL-3/4/5, MAT-1/8, DECL-1, CMD-1)")
 claim("C20", "P", P("no function but a package initialiser writes a package-level variable; package variables hold no shared mutable reference; singleton matchers are constants; no goroutine/channel/select/unsafe/reflect; imports within a reviewed set; "
       "the environment is read at one declaration-time site; every map iteration has only per-key effects; sorting is deterministic; Clear drops the backing array (no aliasing of a shared default slice)."),
       TRUST + "interleaving of writes to os.Stderr and a program that calls Setenv concurrently are outside.",
